@@ -187,3 +187,8 @@ pub fn vec_map_collect<T, U, F: Fn(T) -> U>(v: Vec<T>, f: F) -> (r: Vec<U>)
     requires forall|i: int| 0 <= i < v.len() ==> f.requires((#[trigger] v[i],))
     ensures r.len() == v.len(), forall|i: int| 0 <= i < v.len() ==> f.ensures((v[i],), #[trigger] r[i])
 { v.into_iter().map(f).collect() }
+// `v.iter()` as a collected sequence of references (R12): element-wise, in order
+#[verifier::external_body]
+pub fn vec_refs<'a, T>(v: &'a Vec<T>) -> (r: Vec<&'a T>)
+    ensures r.len() == v.len(), forall|i: int| 0 <= i < v.len() ==> *(#[trigger] r[i]) == v[i]
+{ v.iter().collect() }
